@@ -53,9 +53,12 @@ type Input struct {
 	Engine string   `json:"engine,omitempty"` // "pango" (default) | "gotext"
 	Flows  []Flow   `json:"flows"`
 	Hidden []string `json:"hidden,omitempty"` // ids of visibility:hidden elements (laid out, not drawn)
-	Items  []Item   `json:"items,omitempty"`  // list items and the marker text each must get exactly once
-	Feat   []string `json:"feat,omitempty"`   // features the generator used (evidence counters)
-	Mode   string   `json:"mode,omitempty"`   // generator family
+	// ids of the elements that declare visibility:visible inside a hidden element (drawn again);
+	// visibility is inherited: the nearest declaring ancestor-or-self decides (CSS 2.1 section 11.2)
+	Visible []string `json:"visible,omitempty"`
+	Items   []Item   `json:"items,omitempty"` // list items and the marker text each must get exactly once
+	Feat    []string `json:"feat,omitempty"`  // features the generator used (evidence counters)
+	Mode    string   `json:"mode,omitempty"`  // generator family
 	// page-based generated content (pagecount.go)
 	Generated     []GenContent `json:"generated,omitempty"`      // ::before / ::after contents, each laid out exactly once
 	MarginCounter []GenPart    `json:"margin_counter,omitempty"` // content of a page-margin box of every page
@@ -67,6 +70,7 @@ func init() {
 		Rule: "inputs: generated HTML documents (Ahem / WeasyPrint test font, pango engine and 5 % go-text) whose words are unique tokens, with the generator-side expected character sequence of every flow, marker text of every list item, and multiplicity rule of every repeated box; " +
 			"families: paged (page content box 1-40 lines high, 3-60 em wide: paragraphs, nested blocks, lists, tables with split cells, inline boxes, inline-blocks, forced/avoided breaks, orphans/widows, box-decoration-break, bounded floats / absolute boxes / fixed boxes / header groups / running elements) and tall (floats, absolute boxes, tables with header and footer groups anywhere; pages separated by forced breaks only); " +
 			"16 % of the documents of both families hold ::before / ::after content with page-based counters (counter(page), counter(pages), target-counter(<string | url | attr(href)>, page) to targets before and after the reference; six counter styles; on inline elements, paragraphs and list items), whose provisional text of the first pagination pass is replaced and whose pages are made again (counters docs_repaginated, pages_revisited, generated_width_changed), one third of them with a `page / pages` page-margin box; " +
+			"`visibility` is generated as the inherited property it is: hidden (3 % of the blocks / list items, 7 % of the inline boxes, 5 % of the inline-blocks; one quarter of the latter two as `collapse`), `visible` declared again by 30-40 % of the blocks, list items, inline boxes and inline-blocks inside a hidden element, hidden again inside those (12 %): a TextBox must reach DrawText exactly when the nearest ancestor-or-self element with a declaration says `visible` (counters hidden_by_inline_textboxes, reshown_draws_matched, reshown_in_hidden_inline_box_draws_matched); " +
 			"a case is non-trivial when the document was laid out on >= 2 pages and at least one flow has text on more than one page (a fragmentation really happened), " +
 			"or when it is a single-page document with at least one sub-flow (float / absolutely positioned / table cell) or a block broken into several lines; distinct = distinct input.",
 		N:     numCases,
@@ -84,6 +88,7 @@ func init() {
 			"the expected character sequences come from the generator that wrote the HTML (no HTML parser in the oracle); the generator only emits nestings that the HTML parser keeps as written",
 			"DrawText calls are matched to TextBoxes by page, text (white space ignored) and origin (PositionX, PositionY+Baseline); with the go-text engine webrender emits empty DrawText calls, so only their number per page is compared",
 			"header / footer groups: CSS lets the user agent repeat them or not; required: complete wherever laid out, at most once per page fragment of their table, at least once overall; once on every fragment only where no space constraint exists (tall documents)",
+			"visibility: the generator records the ids of the elements that declare hidden / collapse and of those that declare visible inside them; the oracle derives the visibility of a TextBox from the nearest declaring ancestor-or-self box (box.Element id), list markers and ::before / ::after boxes from their element (CSS 2.1 section 11.2; `collapse` is only generated on non-table boxes, where it means hidden); no visibility declaration inside a paragraph with ::first-letter (whose letter webrender styles from the paragraph, CSS 2.1 section 5.12.2 from the innermost inline), inside table header / footer groups, on table parts, floats and positioned boxes",
 			"a render that panics or stalls is C01's verdict: inconclusive here (go-text: skipped)",
 			"generated content (::before / ::after with page-based counters): the text of every declared pseudo-element, all pages in order, must be exactly one occurrence of its content list - literal parts verbatim, every counter part a representation of some non-negative integer in its counter style; the value itself (number of pages, page of the box, page of the target's first box) is required in page-margin boxes and only reported for flow content (a counter whose width decides its own page has no stable value; webrender resolves each counter once); element text of such documents obeys the same conservation rules as everywhere",
 			"more calls of the page-loop hook than laid-out pages (wr.PageLoopIterations) is taken as evidence of a second pagination pass",
@@ -147,7 +152,11 @@ func Check(raw json.RawMessage) fw.Result {
 	for _, h := range in.Hidden {
 		hidden[h] = true
 	}
-	od := observePages(pages, flowRoots, hidden)
+	visible := map[string]bool{}
+	for _, v := range in.Visible {
+		visible[v] = true
+	}
+	od := observePages(pages, flowRoots, hidden, visible)
 	res.Count("pages", int64(od.pages))
 	if loopIterations > od.pages {
 		res.Count("docs_repaginated", 1)
@@ -471,6 +480,9 @@ func Check(raw json.RawMessage) fw.Result {
 		t := &od.texts[ti]
 		if t.hidden {
 			res.Count("hidden_textboxes", 1)
+			if t.hiddenBy == "inline" {
+				res.Count("hidden_by_inline_textboxes", 1)
+			}
 			continue
 		}
 		if strings.TrimSpace(t.text) == "" {
@@ -507,6 +519,13 @@ func Check(raw json.RawMessage) fw.Result {
 		}
 		draws[found].used = true
 		res.Count("draws_matched", 1)
+		if t.hiddenBy != "" && strings.TrimSpace(t.text) != "" {
+			// a visible run inside a hidden element (visibility:visible declared in between)
+			res.Count("reshown_draws_matched", 1)
+			if t.hiddenBy == "inline" {
+				res.Count("reshown_in_hidden_inline_box_draws_matched", 1)
+			}
+		}
 		// every non-blank character of the run must have reached the backend as a glyph
 		nonBlank := len([]rune(key))
 		if draws[found].glyphs < nonBlank {
